@@ -38,7 +38,7 @@ macro_rules! vcover {
 #[cfg(not(kani))]
 pub fn native_fail(m: &str) -> ! {
     std::eprintln!("VASSERT-FAILED: {}", m);
-    std::process::exit(101);
+    std::process::exit(102);
 }
 #[cfg(not(kani))]
 pub fn native_cover(m: &str) {
@@ -102,6 +102,7 @@ pub fn reset() {
         WAKERS = [None, None, None, None, None, None, None, None];
     }
     std::thread::reset();
+    std::mstr::reset();
     tokio::reset();
 }
 
@@ -228,14 +229,19 @@ pub fn t_late() -> usize { unsafe { std::thread::LATE } }
 pub fn t_early() -> usize { unsafe { std::thread::EARLY } }
 pub fn t_faulted() -> usize { unsafe { std::thread::FAULTED } }
 pub fn t_enable_faults() { unsafe { std::thread::FAULTS = true; } }
+/// number of joins that returned Err (a faulted thread whose failure reached its joiner)
+pub fn t_fault_seen() -> usize { unsafe { std::thread::FAULT_SEEN } }
 pub fn t_name_is(expect: &[u8]) -> bool { match std::thread::current().name() { Some(n) => n.eq_bytes(expect), None => false } }
 pub fn t_unnamed() -> bool { std::thread::current().name().is_none() }
+/// fix the thread model's schedule: 1 = every thread runs at spawn time, 2 = every thread runs at join time
+pub fn t_schedule(k: u8) { unsafe { std::thread::SCHED = k; } }
 /// switch the byte-level `format!` rendering off (thread names become empty strings)
 pub fn names_off() { std::mstr::set_render(false); }
 pub fn t_set_name(n: &str) { std::thread::set_current_name(Some(std::mstr::MStr::from_str(n))); }
 pub fn k_spawned() -> usize { unsafe { tokio::SPAWNED } }
 pub fn k_faulted() -> usize { unsafe { tokio::FAULTED } }
 pub fn k_enable_faults() { unsafe { tokio::FAULTS = true; } }
+pub fn k_fault_seen() -> usize { unsafe { tokio::FAULT_SEEN } }
 pub fn k_eager() -> usize { unsafe { tokio::EAGER } }
 
 // ---------------------------------------------------------------------------------------------
@@ -272,3 +278,24 @@ pub fn conv2<A: Into<B>, B>(a: A) -> B { a.into() }
 /// three type parameters
 pub fn fold3<A: Into<u8>, B: Into<u8>, C: From<u8>>(a: A, b: B) -> C { C::from(a.into() ^ b.into()) }
 pub fn wrapv<T>(v: T) -> Vec<T> { let mut x = Vec::new(); x.push(v); x }
+/// current model thread's name == prefix[..plen] ++ suffix
+pub fn t_name_is2(prefix: &[u8; 3], plen: usize, suffix: &[u8]) -> bool {
+    match std::thread::current().name() {
+        Some(n) => {
+            if n.len() != plen + suffix.len() { return false; }
+            let mut i = 0;
+            while i < plen { if n.at(i) != prefix[i] { return false; } i += 1; }
+            let mut j = 0;
+            while j < suffix.len() { if n.at(plen + j) != suffix[j] { return false; } j += 1; }
+            true
+        }
+        None => false,
+    }
+}
+/// name the root model thread with `plen` of the given bytes
+pub fn t_set_name_bytes(b: &[u8; 3], plen: usize) {
+    let mut m = std::mstr::MStr::empty();
+    let mut i = 0;
+    while i < plen { m.push(b[i]); i += 1; }
+    std::thread::set_current_name(Some(m));
+}
